@@ -715,7 +715,8 @@ def quad_oracle(c, out):
 # run
 # --------------------------------------------------------------------------
 def run(ctx):
-    ctx.build_with_translator(FILES)
+    ctx.build_with_translator(FILES, extra_files=['C17M_Proofs.v', 'C17M_Properties.v'],
+                              extra_obligation_files=['C17M_Properties.v'])   # centre of mass lies in the hull
     pass  # known findings come from /verif/known_findings.json only
     ctx.cov['rule'] = (
         'three case families, all evaluated by the real API and by the Coq model (vm_compute): '
